@@ -141,6 +141,9 @@ type Env struct {
 	S  *zzsim.Sim
 	NW *simnet.Network
 	C  *Case
+	// Alive lists, after the run, the goroutines that have not finished and
+	// where each was last seen (to explain hangs).
+	Alive []zzsim.GInfo
 
 	mu     sync.Mutex
 	hist   []*Hist
@@ -397,6 +400,7 @@ func Execute(t *testing.T, sc Scenario, c *Case, recording bool, tapeSeed uint64
 			s.Go("main", "harness", func() { sc.Run(c, env) })
 			res := s.Loop()
 			s.Deactivate()
+			env.Alive = s.Alive()
 			v.Stats = s.Finish()
 			v.Fired = map[string]int{}
 			for k, n := range nw.Fired {
